@@ -5,6 +5,7 @@ import Model.Wire
 import Model.Codec
 import Model.Transcript
 import Model.Batch
+import Model.Ctors
 open Model Model.Wire
 
 /-- build the statement-side instance from generator basis ids -/
@@ -111,6 +112,28 @@ def cmdDecode (m : List (String × String)) : Option String := do
   | none => pure "err"
   | some p => pure s!"ok reenc={bytesToHex (Codec.encode p)} rounds={p.li.length} tag={p.tag}"
 
+def okerr (b : Bool) : String := if b then "ok" else "err"
+
+def cmdCtor (m : List (String × String)) : Option String := do
+  let nat (k : String) : Option Nat := do (← get m k).toNat?
+  match (← get m "kind") with
+  | "params" => pure (okerr (Ctors.paramsInit (← nat "bits") (← nat "cap")))
+  | "statement" => pure (okerr (Ctors.statementInit (← nat "cap") (← nat "nc") (← nat "np") ((← nat "seed") != 0)))
+  | "degree" => pure (okerr (Ctors.degreeOk (← nat "x")))
+  | "witness" => pure (okerr (Ctors.witnessInit (← natList (← get m "rlens"))))
+  | "mask" => pure (okerr (Ctors.maskAssign (← nat "deg") (← nat "len")))
+  | "commit" => pure (okerr (Ctors.commitOk (← nat "deg") (← nat "nb")))
+  | _ => none
+
+def cmdGuards (m : List (String × String)) : Option String := do
+  let nat (k : String) : Option Nat := do (← get m k).toNat?
+  let ops ← (splitOn' (← get m "ops") "/").mapM (fun s =>
+    match (s.splitOn ":").mapM String.toNat? with
+    | some [v, rl, rp] => some ({ v := v, rlen := rl, reproduces := rp != 0 } : Ctors.Opening)
+    | _ => none)
+  let ps ← (splitOn' (← get m "promises") ",").mapM (fun s => if s == "x" then some none else s.toNat?.map some)
+  pure (okerr (Ctors.proverGuards (← nat "bits") (← nat "tS") (← nat "tW") (← nat "nc") ops ps))
+
 def step (line : String) : String :=
   let line := line.trimAscii.toString
   match line.splitOn " " with
@@ -122,6 +145,8 @@ def step (line : String) : String :=
       | "recover" => cmdRecover m
       | "batch" => cmdBatch m
       | "decode" => cmdDecode m
+      | "ctor" => cmdCtor m
+      | "guards" => cmdGuards m
       | _ => none
     match r with
     | some s => s
